@@ -546,6 +546,26 @@ def km_obligations(P):
             want = {"_phiM", "_phiC", "_psiM", "_mParam", "_nParam"}
             called = {h for h, _, _ in R.helper_calls}
             obs.append(req_ob("R-KM-FORM", site, "the power-law parameters come from the stability helpers %s" % tag, called >= want - {"_phiM"}, detail=str(sorted(called))))
+            # ... evaluated at the caller's own measurement height and Obukhov length (the closed form is stated for the
+            # inputs as given; a limiter or conversion in between would make it hold for other inputs only)
+            mod_km = P.module("bldfm.ffm_kormann_meixner")
+            for hn, a, kw in R.helper_calls:
+                fdef = mod_km.functions.get(hn)
+                if fdef is None:
+                    continue
+                formals = [p.arg for p in fdef.args.args]
+                bound = dict(zip(formals, a))
+                bound.update(kw)
+                for formal, want_v, label in (("zm", R.zm, "the measurement height"), ("mo_len", R.L, "the Obukhov length")):
+                    if formal not in bound:
+                        continue
+                    got = bound[formal]
+                    if isinstance(got, Arr):
+                        els = got.meta.get("elements")
+                        got = els[0] if els and len(els) == 1 else got.val
+                    okh = isinstance(got, Expr) and got.eq(want_v)
+                    obs.append(req_ob("R-KM-FORM", site, "%s is evaluated at %s as given %s" % (hn, label, tag), okh if (okh or isinstance(got, Expr)) else None,
+                                      detail=None if okh else "receives %s" % repr(got)[:120], key={"helper": hn, "formal": formal}))
         obs.append(req_ob("R-KM-FORM", site, "an upwind path exists %s" % tag, bool(ups)))
         # zero structure, dtype and shapes: plain inputs
         for stab in ("stable", "unstable"):
@@ -634,6 +654,8 @@ def sector_window_obligations(P, hmax=359):
             sel = x.val is not BOT
             if isinstance(x.val, Unknown):
                 sel = None
+        if any(d.startswith("unknown test") for d, _ in I.path):
+            sel = None  # the selection rests on a branch the interpreter could only guess
         calls.append((sel, list(I.constraints), I.loop_stack[-1] if I.loop_stack else None, getattr(node, "lineno", 0)))
         return alg.sym("sector_median")
 
@@ -642,8 +664,13 @@ def sector_window_obligations(P, hmax=359):
                            stubs={"numpy.nanmedian": nanmedian, "numpy.median": nanmedian}, max_paths=20000)
     except AnalysisError as e:
         return [req_ob("R-SECTOR", site, "the sector loop is interpretable", None, detail=str(e))]
+    carried = sorted({(e[1], e[2]) for r in res for e in r.events if e[0] == "loop-carried-read"})
+    obs.append(req_ob("R-SECTOR", site, "every sector is evaluated independently: no array contents are carried from one iteration of the sector loop into the next", not carried,
+                      detail="; ".join("%s: %s" % c for c in carried[:2]) or None, key={"clause": "independent-sectors"}))
+    if carried:
+        return obs
     if not calls or any(c[0] is None or c[2] is None for c in calls):
-        return [req_ob("R-SECTOR", site, "the sector loop takes the median of a masked selection inside a loop over sectors", None,
+        return obs + [req_ob("R-SECTOR", site, "the sector loop takes the median of a masked selection inside a loop over sectors", None,
                        detail="%d median calls, undecided selections: %d" % (len(calls), sum(1 for c in calls if c[0] is None)))]
     w = wd.val
     wa, ha = _atom(w), _atom(h)
